@@ -255,6 +255,7 @@ pub fn analyze(sc: &StreamScenario, out: &StreamOutcome) -> Analysis {
                     ErrKind::TimedOut => "read_err_timedout",
                     ErrKind::ConnectionReset => "read_err_connreset",
                     ErrKind::BrokenPipe => "read_err_brokenpipe",
+                    ErrKind::WriteZero => "read_err_writezero",
                 });
                 last_ready_was_err = true;
                 sig.u64(3);
